@@ -26,6 +26,7 @@ _ALLOWED_FUNCTIONS: dict[str, Callable[..., sympy.Expr]] = {
     "ceiling": sympy.ceiling,
     "Abs": sympy.Abs,
     "sign": sympy.sign,
+    "conjugate": sympy.conjugate,
     "sqrt": sympy.sqrt,
     "mod": sympy.Mod,
     "Mod": sympy.Mod,
